@@ -258,3 +258,38 @@ pub fn v20list(_args: &hxlib::util::Args) -> i32 {
     }
     0
 }
+
+/// probe-fullzip: fixed-width columns with the structural-encoding=fullzip hint
+pub fn fullzip(_args: &hxlib::util::Args) -> i32 {
+    use crate::e2e::{run_case, Case};
+    use crate::gen::Flavor;
+    let rt = runtime();
+    for version in [LanceFileVersion::V2_1, LanceFileVersion::V2_2] {
+        for nullable in [false, true] {
+            for nulls in [false, true] {
+                if nulls && !nullable {
+                    continue;
+                }
+                for rows in [1usize, 5, 100] {
+                    for ty in ["i32", "f32", "i64", "fsb3"] {
+                        let vals = |i: usize| if nulls && i % 3 == 1 { None } else { Some(i as i64 * 7 + 1) };
+                        let col: ArrayRef = match ty {
+                            "i32" => Arc::new(Int32Array::from((0..rows).map(|i| vals(i).map(|v| v as i32)).collect::<Vec<_>>())),
+                            "f32" => Arc::new(Float32Array::from((0..rows).map(|i| vals(i).map(|v| v as f32)).collect::<Vec<_>>())),
+                            "i64" => Arc::new(Int64Array::from((0..rows).map(|i| vals(i)).collect::<Vec<_>>())),
+                            _ => Arc::new(FixedSizeBinaryArray::try_from_sparse_iter_with_size((0..rows).map(|i| vals(i).map(|v| vec![v as u8, 1, 2])), 3).unwrap()),
+                        };
+                        let mut md = std::collections::HashMap::new();
+                        md.insert("lance-encoding:structural-encoding".to_string(), "fullzip".to_string());
+                        let schema = Arc::new(Schema::new(vec![Field::new("c", col.data_type().clone(), nullable).with_metadata(md)]));
+                        let batch = RecordBatch::try_new(schema.clone(), vec![col]).unwrap();
+                        let case = Case { version, schema, batches: vec![batch], opts_cache: if std::env::var("C25_CACHE1").is_ok() { Some(1) } else { None }, opts_maxp: None, keep: None, flavor: Flavor::Flat };
+                        let f = run_case(&rt, &case, 1);
+                        println!("{version}\t{ty} nullable={nullable} nulls={nulls} rows={rows}\t{}", if f.is_empty() { "ok".to_string() } else { f[0].msg.replace('\n', " ").chars().take(170).collect::<String>() });
+                    }
+                }
+            }
+        }
+    }
+    0
+}
